@@ -217,6 +217,11 @@ func (its *WiredDatatype) updateStateOfDatatype(
 
 		its.state = model.StateOfDatatype_SUBSCRIBED
 		its.id = ppp.DUID
+		if ppp.GetPushPullPackOption().HasSubscribeBit() {
+			// the base a failed transaction rolls back to carries the datatype id and the next
+			// operation id; take it again now that the subscription has set both
+			_ = its.ResetTransaction()
+		}
 
 		err = its.wire.OnChangeDatatypeState(its.Datatype, its.state)
 	case model.StateOfDatatype_SUBSCRIBED:
